@@ -13,6 +13,8 @@ open QbVerif.Gen
 
 theorem step_create (st : St) (d : List Nat) :
     st.step (.create d) = ((st.create d).1, [(st.create d).2]) := rfl
+theorem step_createFail (st : St) :
+    st.step .createFail = (st.createFail.1, [st.createFail.2]) := rfl
 theorem step_get (st : St) (h : Nat) :
     st.step (.get h) = ((st.get h).1, [.got (st.get h).2.1 (st.get h).2.2]) := rfl
 theorem step_getAlways (st : St) (h : Nat) :
@@ -49,6 +51,7 @@ theorem G_iterLoop {st : St} (g : G st) (n : Nat) (res : Int) : G (st.iterLoop n
 theorem G_step {st : St} (g : G st) (op : Op) : G (st.step op).1 := by
   cases op with
   | create d => exact G_create g d
+  | createFail => exact G_createFail g
   | get h => exact G_get g h
   | getAlways h => exact G_get g h
   | put h => exact G_put g h
@@ -89,6 +92,11 @@ theorem dtorCount_single_ne (K : Nat) (o : Out) (hne : ∀ i, o ≠ .dtor i) : d
     exact absurd this (hne _)
   · rfl
 
+/-- a create whose allocation fails outputs a return code, never a destructor event -/
+theorem createFail_out_ne {st : St} (g : G st) : ∀ i, st.createFail.2 ≠ .dtor i := by
+  intro i hh
+  rcases createFail_spec g with ⟨rc, _, he⟩ | ⟨j, _, _, he⟩ | ⟨m, _, _, he⟩ <;> (rw [he] at hh; cases hh)
+
 /-- one call keeps the invariant (the ledger advances by what the call returned) -/
 theorem Track.step {fresh : Bool} {h K : Nat} {st : St} {L : Ledger} (T : Track fresh h K st L) (op : Op)
     (hnr : fresh = true → ∀ d', op = .create d' → (st.create d').2 ≠ .created 0 h) :
@@ -107,6 +115,15 @@ theorem Track.step {fresh : Bool} {h K : Nat} {st : St} {L : Ledger} (T : Track 
         · rw [he] at hh; cases hh
         · rw [ho] at hh; cases hh)]
       refine TrackS.create T d ?_ (fun hf => hnr hf d rfl)
+      unfold Ledger.stateOf; split
+      · exact pending_ne_empty
+      · exact active_ne_empty
+    | createFail =>
+      rw [step_createFail] at hdt ⊢
+      obtain ⟨hc, hd⟩ := ledger_step_other (h := h) (K := K) (L := L) .createFail [st.createFail.2]
+        (Or.inr (Or.inr (Or.inr rfl)))
+      rw [hc, stateOf_congr hd, hdt, dtorCount_single_ne K _ (createFail_out_ne T.g)]
+      refine TrackS.createFail T ?_
       unfold Ledger.stateOf; split
       · exact pending_ne_empty
       · exact active_ne_empty
@@ -142,7 +159,7 @@ theorem Track.step {fresh : Bool} {h K : Nat} {st : St} {L : Ledger} (T : Track 
       exact T
     | iterReset =>
       rw [step_iterReset] at hdt ⊢
-      obtain ⟨hc, hd⟩ := ledger_step_other (h := h) (K := K) (L := L) .iterReset [.unit] (Or.inr (Or.inr rfl))
+      obtain ⟨hc, hd⟩ := ledger_step_other (h := h) (K := K) (L := L) .iterReset [.unit] (Or.inr (Or.inr (Or.inl rfl)))
       rw [hc, stateOf_congr hd, hdt, dtorCount_single_ne K _ (by intro i hh; cases hh)]
       exact T.setIter 0
     | iterNext =>
@@ -162,6 +179,13 @@ theorem Track.step {fresh : Bool} {h K : Nat} {st : St} {L : Ledger} (T : Track 
         · rw [he] at hh; cases hh
         · rw [ho] at hh; cases hh)]
       refine TrackS.create T d ?_ (fun hf => hnr hf d rfl)
+      unfold Ledger.stateOf; split
+      · exact pending_ne_empty
+      · exact active_ne_empty
+    | createFail =>
+      rw [step_createFail] at hdt ⊢
+      rw [hdt, dtorCount_single_ne K _ (createFail_out_ne T.g)]
+      refine TrackS.createFail T ?_
       unfold Ledger.stateOf; split
       · exact pending_ne_empty
       · exact active_ne_empty
@@ -303,6 +327,9 @@ theorem nextObj_step {st : St} (g : G st) (op : Op) :
     rcases create_spec g d with ⟨rc, _, he, _⟩ | ⟨j, _, ho, hn, _⟩
     · left; rw [step_create, he]
     · right; exact ⟨d, _, rfl, ho, by rw [step_create]; exact hn⟩
+  | createFail =>
+    left; rw [step_createFail]
+    rcases createFail_spec g with ⟨rc, _, he⟩ | ⟨j, _, _, he⟩ | ⟨m, _, _, he⟩ <;> rw [he]
   | get h =>
     left; rw [step_get]
     by_cases hy : st.getOk h
